@@ -6,7 +6,7 @@
 (* hist carries, per step, the outcome the design predicts; C06's premise is out="complete". *)
 EXTENDS DeserOps
 
-CONSTANTS MaxLen
+CONSTANTS MaxLen, WithBig      \* WithBig: explore the huge-value units too (FALSE for the random walks)
 
 VARIABLES st, ended, pre, inp, hist
 vars == <<st, ended, pre, inp, hist>>
@@ -71,7 +71,7 @@ End(how) == /\ ~ended /\ Len(hist) >= 1
             /\ ended' = TRUE /\ pre' = st /\ inp' = [k |-> "END", how |-> how]
             /\ hist' = Append(hist, [u |-> inp', out |-> st'.out, dev |-> FALSE,
                                       fin |-> st'.out, closed |-> st'.out, code |-> <<>>, val |-> <<>>])
-Next == (\E u \in Units \cup BigUnits : Feed(u)) \/ (\E h \in Ends : End(h))
+Next == (\E u \in (IF WithBig THEN Units \cup BigUnits ELSE Units) : Feed(u)) \/ (\E h \in Ends : End(h))
 Spec == Init /\ [][Next]_vars
 View == <<pre, inp, st, ended>>
 
